@@ -3,6 +3,7 @@ package main
 import (
 	"bytes"
 	"encoding/base64"
+	"encoding/binary"
 	"encoding/json"
 	"fmt"
 	"io"
@@ -32,6 +33,13 @@ import (
 //   exit0     exits with status 0 right after the k-th answer (k = 0: before reading anything)
 //   exit3     exits with status 3 right after the k-th answer
 //   closeout  closes its stdout after the k-th answer and keeps reading (and ignoring) requests
+//   blind0    after the k-th answer it reads only the beginning of request k+1 (enough for the test
+//             name; the runner is still blocked writing the rest), answers it with a client error,
+//             waits until the runner has processed that answer and exits with status 0: the
+//             runner's write fails for a request that is already answered (sendRequest returns
+//             nil, no error is latched), the reader sees a clean end of stream, and every later
+//             send is refused on `closedSend` with `c.err == nil` — the path on which F03 + F04
+//             let Run succeed
 // Every answered test name is appended to a log file in the scenario's directory; the op reports
 // it, so that the judge knows which selected cases received a real answer whatever the
 // interleaving of concurrently running batches was.
@@ -117,6 +125,33 @@ func c04Peer(args []string) int {
 	}
 	child.Process.Kill()
 	child.Wait()
+	if stop == "blind0" {
+		head := make([]byte, 4+512)
+		if _, err := io.ReadFull(in, head); err != nil {
+			return 4
+		}
+		body := head[4:]
+		// ClientCompatRequest.test_name is field 1 and is marshalled first: 0x0A, length, bytes
+		if body[0] != 0x0A {
+			return 4
+		}
+		n, w := binary.Uvarint(body[1:])
+		if w <= 0 || 1+w+int(n) > len(body) {
+			return 4
+		}
+		name := string(body[1+w : 1+w+int(n)])
+		resp := &conformancev1.ClientCompatResponse{TestName: name, Result: &conformancev1.ClientCompatResponse_Error{
+			Error: &conformancev1.ClientErrorResult{Message: "answered before the request was complete"}}}
+		if err := internal.WriteDelimitedMessage(os.Stdout, resp); err != nil {
+			return 4
+		}
+		if f, err := os.OpenFile(logPath, os.O_APPEND|os.O_CREATE|os.O_WRONLY, 0o644); err == nil {
+			f.WriteString("!" + name + "\n")
+			f.Close()
+		}
+		time.Sleep(700 * time.Millisecond)
+		return 0
+	}
 	switch stop {
 	case "exit3":
 		return 3
@@ -141,6 +176,7 @@ type c04LoopOut struct {
 	Err         string     `json:"err"`
 	Batches     [][]string `json:"batches"`
 	Answered    []string   `json:"answered"`
+	Blind       []string   `json:"blind"`
 	Total       int        `json:"total"`
 	Passed      int        `json:"passed"`
 	Failed      int        `json:"failed"`
@@ -168,12 +204,12 @@ func c04LoopCfg(layout int) string {
 `
 }
 
-// Every request carries 80 KiB of request data, more than an OS pipe holds (64 KiB): the
+// Every request carries 120 KiB of request data, more than an OS pipe holds (64 KiB): the
 // runner's write of request j+1 only completes once the client has read it, so that "the client
 // exits after its k-th answer" really is "before request k+1 was sent" — otherwise the whole
 // batch is queued in the pipe at once, nothing ever fails in a write, and the runner only finds
 // out when its 20 s response time-out expires.
-var c04LoopPayload = base64.StdEncoding.EncodeToString(bytes.Repeat([]byte("x"), 80*1024))
+var c04LoopPayload = base64.StdEncoding.EncodeToString(bytes.Repeat([]byte("x"), 120*1024))
 
 func c04LoopSuite(cases []string) (string, []string, []string) {
 	var sb strings.Builder
@@ -200,7 +236,7 @@ func c04LoopSuite(cases []string) (string, []string, []string) {
 
 func c04RunLoop(c *gen.Ctx, in c04LoopIn) c04LoopOut {
 	switch in.Stop {
-	case "serve", "serve3", "exit0", "exit3", "closeout":
+	case "serve", "serve3", "exit0", "exit3", "closeout", "blind0":
 	default:
 		panic("c04: bad stop " + in.Stop)
 	}
@@ -211,7 +247,7 @@ func c04RunLoop(c *gen.Ctx, in c04LoopIn) c04LoopOut {
 		panic(err)
 	}
 	defer os.RemoveAll(dir)
-	out := c04LoopOut{Total: -1, Answered: []string{}, FailedNames: []string{}, InfoNames: []string{}}
+	out := c04LoopOut{Total: -1, Answered: []string{}, Blind: []string{}, FailedNames: []string{}, InfoNames: []string{}}
 	batches, err := cc.VerifC04Batches(filepath.Join(dir, "suite.yaml"), suite, cfg)
 	if err != nil {
 		out.Err = "load: " + err.Error()
@@ -251,12 +287,17 @@ func c04RunLoop(c *gen.Ctx, in c04LoopIn) c04LoopOut {
 	for _, l := range logs {
 		data, _ := os.ReadFile(l)
 		for _, n := range strings.Split(string(data), "\n") {
+			if strings.HasPrefix(n, "!") {
+				n = n[1:]
+				out.Blind = append(out.Blind, n)
+			}
 			if n != "" {
 				out.Answered = append(out.Answered, n)
 			}
 		}
 	}
 	sort.Strings(out.Answered)
+	sort.Strings(out.Blind)
 	sort.Strings(out.FailedNames)
 	sort.Strings(out.InfoNames)
 	return out
@@ -313,6 +354,10 @@ func c04LoopGen(c *gen.Ctx) {
 	add(1, 1, good, -1, "serve3") // every case answered, the client then exits with status 3
 	add(2, 4, []string{"ru", "wu", "rf"}, -1, "serve") // answered but not meeting the expectation
 	add(1, 1, []string{"wk", "rk", "wf"}, 3, "exit0")
+	// the path without a latched error (see blind0): the blind answer is the last request of the
+	// first batch (--max-servers 1), every case is marked so that a client error is an expected failure
+	add(2, 1, []string{"rk", "rk", "rk"}, 2, "blind0")
+	add(3, 1, []string{"rk", "wf"}, 1, "blind0")
 	nRand := 6
 	if c.Thorough() {
 		nRand = 120
